@@ -135,6 +135,12 @@ impl Env {
     self.futs.values().any(|f| f.handle == h && f.fut.is_some())
   }
 
+  fn drop_fut(slot: FutSlot) -> String {
+    let woken = slot.fut.is_some() && slot.cw.wakes.load(Ordering::Relaxed) > 0;
+    drop(slot);
+    if woken { "ok:woken".into() } else { "ok".into() }
+  }
+
   /// Execute one op; the result token.
   pub fn exec(&mut self, op: &Op) -> String {
     if let Some(le) = self.locks.as_mut() {
@@ -188,17 +194,13 @@ impl Env {
         None => "invalid:nofut".into(),
       },
       "dropfut" => match self.futs.remove(op.arg(1)) {
-        Some(slot) => {
-          drop(slot);
-          "ok".into()
-        }
+        Some(slot) => Self::drop_fut(slot),
         None => "invalid:nofut".into(),
       },
       "drop" => {
         let hn = op.arg(1);
-        if hn.starts_with('f') && self.futs.contains_key(hn) {
-          self.futs.remove(hn);
-          return "ok".into();
+        if let Some(slot) = self.futs.remove(hn) {
+          return Self::drop_fut(slot);
         }
         if self.busy(hn) {
           return "invalid:busy".into();
@@ -298,6 +300,8 @@ fn run_ops(env: &mut Env, sh: &Arc<Shared>, tid: usize, ops: &[Op]) -> bool {
     for op in ops {
       rt::sched_point();
       sh.push(Ev::Call { tid, op: op.clone() });
+      sh.stats[tid].polls.store(0, Ordering::Relaxed);
+      sh.stats[tid].wakes.store(0, Ordering::Relaxed);
       let res = env.exec(op);
       sh.push(Ev::Ret { tid, res });
     }
